@@ -44,8 +44,16 @@ def run(rep, tier):
     rep.rule("R3", "operand assembly: b1 + 256*b2 + ext (ext' = arg*65536 after EXTENDED_ARG) before 3.6; b1 | ext (ext' = arg<<8) from 3.6; ext' = 0 otherwise")
     rep.rule("R4", "the operand unpacker used by the table's label finder yields the same (offset, operand) and consumes the same number of bytes")
     rep.rule("R6", "an instruction reports an operand exactly when dis of that version does (op >= HAVE_ARGUMENT; hasarg from 3.12)")
+    rep.rule("R7", "the xdis.std entry points the property is observed at (get_instructions, Bytecode iteration, make_std_api(v)) hand on the caller's arguments and the "
+                   "API's own table: C20's plumbing rules R1, R2 and R7 (first_line, per-API opcode table, show_caches), restated")
     collect(rep, "C02", _work)
     driver(rep)
+    from ..report import SubReport, merge_sub
+    from . import c20
+    sub20 = SubReport("C20", tier=tier)
+    sub20.plumbing_only = True
+    c20.run(sub20, tier)
+    merge_sub(rep, sub20, "R7", "C20", only_rules=("R1", "R2", "R7"))
     rep.assumptions = ["reference/dis_semantics.json (Lib/dis.py of 2.7, 3.6-3.13)", "opcode names per offset are C09's subject", "behaviour on malformed code is not decided"]
 
 
